@@ -29,12 +29,16 @@ fn rec_summary(r: &Rec) -> serde_json::Value {
 }
 
 pub fn judge_files(files: &[(String, Vec<u8>)], root: &str, label: &str, family: &str, key_hint: Option<&str>, budgets: &[usize], l: &mut Local) {
+    judge_files_def(files, root, label, family, key_hint, budgets, &[], l)
+}
+
+pub fn judge_files_def(files: &[(String, Vec<u8>)], root: &str, label: &str, family: &str, key_hint: Option<&str>, budgets: &[usize], defines: &[(String, run::DefVal)], l: &mut Local) {
     let mut fired = false;
     for b in budgets {
         let mut recs = vec![];
         for (os, om) in c02::SWITCHES {
             l.eval();
-            let obs = run::assemble_files(files, &[root], &Opts { iters: *b, opt_static: os, opt_matcher: om, defines: vec![] });
+            let obs = run::assemble_files(files, &[root], &Opts { iters: *b, opt_static: os, opt_matcher: om, defines: defines.to_vec() });
             recs.push(record(&obs));
         }
         if recs.iter().any(|r| r.0 == "success") {
@@ -54,7 +58,7 @@ pub fn judge_files(files: &[(String, Vec<u8>)], root: &str, label: &str, family:
                         let on_ok = recs[0].0 == "success";
                         let off_fail = recs[1].0 == "failure";
                         let converges_later = only_static && on_ok && off_fail && {
-                            let o = run::assemble_files(files, &[root], &Opts { iters: 30, opt_static: false, opt_matcher: true, defines: vec![] });
+                            let o = run::assemble_files(files, &[root], &Opts { iters: 30, opt_static: false, opt_matcher: true, defines: defines.to_vec() });
                             record(&o) == recs[0]
                         };
                         if converges_later {
@@ -68,7 +72,7 @@ pub fn judge_files(files: &[(String, Vec<u8>)], root: &str, label: &str, family:
                     property: ID,
                     key,
                     what: format!("results differ between switch combinations at budget {}: {}", b, label),
-                    case: json!({"family": family, "root": root, "files": files.iter().filter(|f| !f.0.starts_with("<std>")).map(|f| json!([f.0, String::from_utf8_lossy(&f.1)])).collect::<Vec<_>>(), "budget": b,
+                    case: json!({"family": family, "root": root, "files": files.iter().filter(|f| !f.0.starts_with("<std>")).map(|f| json!([f.0, String::from_utf8_lossy(&f.1)])).collect::<Vec<_>>(), "budget": b, "defines": defines.iter().map(|(n, v)| format!("{}={:?}", n, v)).collect::<Vec<_>>(),
                         "observed": {"static+matcher": rec_summary(&recs[0]), "matcher only": rec_summary(&recs[1]), "static only": rec_summary(&recs[2]), "none": rec_summary(&recs[3])}}),
                 });
                 break;
@@ -116,6 +120,42 @@ pub fn run(ctx: &Ctx) -> Report {
     let nl = lines.len() as u64;
     let np = pool.len() as u64;
     let one_budget = [10usize];
+    // command-line defines under the four switch combinations: the override must reach every use (operand, data, a
+    // constant derived from it, a condition) whichever way constants are resolved
+    {
+        let head = "#ruledef\n{\n    ld {x: u8} => 0x55 @ x\n}\n";
+        let decl = ["val = 5\n", "val = 5\nother = val + 1\n", "other = val + 1\nval = 5\n"];
+        let uses = ["ld val\n", "#d8 val\n", "#d8 other\n", "#if val == 7\n{\n#d8 0xaa\n}\n#else\n{\n#d8 0xbb\n}\n", "ld val\n#if val == 7\n{\n#d8 0xaa\n}\nlab:\n#d8 lab\n"];
+        let defs: Vec<Vec<(String, run::DefVal)>> = vec![
+            vec![],
+            vec![("val".into(), run::DefVal::Int(7))],
+            vec![("val".into(), run::DefVal::Int(5))],
+            vec![("val".into(), run::DefVal::Int(0x10))],
+            vec![("other".into(), run::DefVal::Int(9))],
+            vec![("val".into(), run::DefVal::Int(7)), ("other".into(), run::DefVal::Int(9))],
+        ];
+        let mut cases: Vec<(String, usize)> = vec![];
+        for (di, d) in decl.iter().enumerate() {
+            for u in uses {
+                if u.contains("other") && di == 0 {
+                    continue;
+                }
+                for decl_first in [true, false] {
+                    let src = if decl_first { format!("{}{}{}", head, d, u) } else { format!("{}{}{}", head, u, d) };
+                    for k in 0..defs.len() {
+                        if defs[k].iter().any(|(n, _)| n == "other") && di == 0 {
+                            continue;
+                        }
+                        cases.push((src.clone(), k));
+                    }
+                }
+            }
+        }
+        rep.absorb(par_cases(&cases, |(src, k), l| {
+            let files = vec![("main.asm".to_string(), src.as_bytes().to_vec())];
+            judge_files_def(&files, "main.asm", &format!("{} [defines {:?}]", src.replace('\n', " / "), defs[*k].iter().map(|(n, v)| format!("{}={:?}", n, v)).collect::<Vec<_>>()), "defines", None, &budgets, &defs[*k], l);
+        }));
+    }
     // F1 singles at all budgets
     rep.absorb(par_run(np * nl, |i, l| {
         let d = decode(i, &[nl, np]);
